@@ -764,7 +764,7 @@ func kindConv() kind {
 // ---- params
 
 func paramDenoms() []string {
-	return []string{"nund", "-", "a", "ab", "abc", "1abc", "nund!", "Nund", "a/b", "ibc/27394FB092D2ECCD56123C74F36E4C1F926001CEADA9CA97EA622B25F41E5EB2",
+	return []string{"nund", "-", "a", "ab", "abc", "1abc", "nund!", "Nund", "a/b", "nund~", "~nund", "^nund", "~", "nu~nd", "stake~~", "ibc/27394FB092D2ECCD56123C74F36E4C1F926001CEADA9CA97EA622B25F41E5EB2",
 		"a" + strings.Repeat("b", 127), "a" + strings.Repeat("b", 128)}
 }
 
